@@ -572,6 +572,18 @@ func (sc *specCtx) evalCall(x *ast.CallExpr) Value {
 		if !ok1 || !ok2 {
 			sc.errorf(x, "ite on non-scalars")
 		}
+		// a condition that is (the negation of) a fact of the current path selects its branch
+		if sc.st != nil && sc.st.quantDepth == 0 && !c.IsTrue() && !c.IsFalse() {
+			nc := Not(c)
+			for i := len(sc.st.facts) - 1; i >= 0 && i >= len(sc.st.facts)-400; i-- {
+				if sc.st.facts[i] == c {
+					return at
+				}
+				if sc.st.facts[i] == nc {
+					return bt
+				}
+			}
+		}
 		return Ite(c, at, bt)
 	case "len":
 		switch v := sc.eval(x.Args[0]).(type) {
@@ -832,6 +844,27 @@ func (sc *specCtx) evalCall(x *ast.CallExpr) Value {
 		return sc.st.entropyReads[k]
 	case "fresh":
 		return sc.freshPred(x, sc.eval(x.Args[0]))
+	case "bycases":
+		// bycases(e, lo, hi, G): G is proved by case analysis on the value of e in [lo, hi):
+		// the obligation is  lo <= e < hi  and, for each j,  e == j ==> G[e := j];
+		// what is assumed afterwards is G itself (it follows from the cases).
+		if len(x.Args) != 4 {
+			sc.errorf(x, "bycases(e, lo, hi, G)")
+		}
+		e := sc.evalTerm(x.Args[0])
+		lo, ok1 := sc.evalTerm(x.Args[1]).ConstInt()
+		hi, ok2 := sc.evalTerm(x.Args[2]).ConstInt()
+		if !ok1 || !ok2 || hi-lo > 256 {
+			sc.errorf(x, "bycases needs small constant bounds")
+		}
+		g := sc.evalBool(x.Args[3])
+		cs := []*Term{Le(ConstI(lo), e), Lt(e, ConstI(hi))}
+		for j := lo; j < hi; j++ {
+			gj := substitute(g, map[int]*Term{e.id: ConstI(j)}, map[int]*Term{})
+			cs = append(cs, Imp(Eq(e, ConstI(j)), gj))
+		}
+		sc.st.caseConcl = append(sc.st.caseConcl, g)
+		return And(cs...)
 	case "sameslice":
 		// sameslice(a, b): the two slices start at the same element of the same array
 		a, ok1 := sc.eval(x.Args[0]).(SliceV)
